@@ -103,7 +103,11 @@ def spec_violations(case, r):
         return [('harness-error', 'the harness could not run the case: ' + r['error'])]
     v = []
     k, ops = r['k'], case['ops']
-    if r['status'] not in (0, 1):
+    if isinstance(r['status'], str) and 'Livelock' in r['status']:
+        v.append(('livelock', 'write() call %d (path %r) never returns: open() keeps failing with no other handle open and the '
+                  'writer keeps retrying (more than 60 consecutive failed open() calls) instead of raising'
+                  % (k, ops[k][0] if k < len(ops) else None)))
+    elif r['status'] not in (0, 1):
         kind = 'retry-keyerror' if r['status'] == 2 else 'other-exception'
         v.append((kind, 'write() call %d (path %r) raised %s instead of retrying / re-raising the OSError'
                   % (k, ops[k][0] if k < len(ops) else None, 'KeyError' if r['status'] == 2 else r['status'])))
@@ -412,7 +416,7 @@ class Prop(fw.PropBase):
             for key, text in spec_violations(c, r):
                 if key not in found or len(c['ops']) < len(found[key][1]['ops']):
                     found[key] = (l, c, r, text)
-        order = ['retry-keyerror', 'other-exception', 'content', 'raise-under-good-script', 'raise-not-hopeless',
+        order = ['retry-keyerror', 'livelock', 'other-exception', 'content', 'raise-under-good-script', 'raise-not-hopeless',
                  'invalid-file', 'leak', 'close-raised', 'foreign-path', 'harness-error']
         keys = sorted(found, key=lambda k: order.index(k) if k in order else 99)
         jobs = [{'key': k, 'case': found[k][1]} for k in keys if found[k][1] is not None and k != 'harness-error']
